@@ -3,8 +3,7 @@ T-tr: the solver term built for an expression denotes, under the interpretation
 an execution induces, the value the expression evaluates to — for every
 operand value (all 2^256 of them per operand), one lemma per `Sym`.
 -/
-import EtkVerif.Smt.Translate
-import EtkVerif.Sym.Eval
+import EtkVerif.Smt.OpLemmas
 namespace EtkVerif
 namespace Smt
 open Evm
@@ -32,6 +31,269 @@ structure Agrees (I : Interp) (E : Env) (ρ : Nat → Word) : Prop where
   blockhash : ∀ x, x < 2 ^ 256 → I.uf .blockhash x % 2 ^ 256 = (E.blockhash (BitVec.ofNat 256 x)).toNat
   pow00 : I.pow00 = 1
 
+/-! ### evaluation of the building blocks -/
+
+theorem w256_eval (I : Interp) (v : Nat) : (w256 v).eval I = v % 2 ^ 256 := by
+  simp only [w256, Term.eval]
+
+theorem w256_width (v : Nat) : (w256 v).width = 256 := rfl
+theorem zero_eval (I : Interp) : zero.eval I = 0 := by simp [zero, w256_eval]
+theorem one_eval (I : Interp) : one.eval I = 1 := by simp [one, w256_eval]
+theorem zero_width : zero.width = 256 := rfl
+theorem one_width : one.width = 256 := rfl
+
+theorem evalCmp_eq (w a b : Nat) : (evalCmp .eq w a b = true) = (a = b) := by
+  simp [evalCmp]
+
+theorem evalAll_length (E : Env) (ω ρ : Nat → Word) :
+    (es : Trees) → (Tree.evalAll E ω ρ es).length = es.length
+  | .nil => rfl
+  | .cons _ t => by simp [Tree.evalAll, Trees.length, evalAll_length E ω ρ t]
+
+/-! ### one node -/
+
+theorem len2 {α} {l : List α} (h : l.length = 2) : ∃ a b, l = [a, b] := by
+  rcases l with _ | ⟨a, _ | ⟨b, _ | ⟨c, t⟩⟩⟩ <;> simp at h
+  exact ⟨a, b, rfl⟩
+
+theorem len3 {α} {l : List α} (h : l.length = 3) : ∃ a b c, l = [a, b, c] := by
+  rcases l with _ | ⟨a, _ | ⟨b, _ | ⟨c, _ | ⟨d, t⟩⟩⟩⟩ <;> simp at h
+  exact ⟨a, b, c, rfl⟩
+
+/-- Volatile symbols translate to a fresh constant … -/
+theorem trNode_volatile (s : Sym) (hv : s.volatile = true) (xs : List Term) (n : Nat)
+    (hlen : xs.length = s.arity) : ∃ f, trNode s xs n = .ok (.fresh f n, n + 1) := by
+  cases s <;> simp [Sym.volatile] at hv
+  all_goals
+    simp only [Sym.arity] at hlen
+    rcases xs with _ | ⟨x1, _ | ⟨x2, _ | ⟨x3, _ | ⟨x4, _ | ⟨x5, _ | ⟨x6, _ | ⟨x7, _ | ⟨x8, t⟩⟩⟩⟩⟩⟩⟩⟩
+    all_goals first | (simp at hlen; done) | exact ⟨_, rfl⟩
+
+/-- … and mean `ω tag`. -/
+theorem apply_volatile (E : Env) (ω ρ : Nat → Word) (tag : Nat) (s : Sym) (hv : s.volatile = true)
+    (vs : List Word) : s.apply E ω ρ tag vs = ω tag := by
+  cases s
+  all_goals first | (simp [Sym.volatile] at hv; done) | skip
+  all_goals rfl
+
+/-- Non-volatile leaves: literals, variables and environment constants. -/
+theorem pure0 (E : Env) (ω ρ : Nat → Word) (tag n : Nat) (s : Sym) (h : s.arity = 0)
+    (hv : s.volatile = false) :
+    ∃ x, trNode s [] n = .ok (x, n) ∧ x.width = 256 ∧
+      ∀ I, Agrees I E ρ → x.eval I = (s.apply E ω ρ tag []).toNat := by
+  cases s
+  all_goals first | (simp [Sym.arity] at h; done) | skip
+  all_goals first | (simp [Sym.volatile] at hv; done) | skip
+  all_goals refine ⟨_, rfl, rfl, ?_⟩
+  all_goals intro I hA
+  all_goals simp only [Term.eval, w256_eval]
+  case const v => exact (BitVec.toNat_ofNat v 256).symm
+  case getpc p => exact (BitVec.toNat_ofNat p 256).symm
+  case var i => exact hA.var i
+  case address => exact hA.address
+  case origin => exact hA.origin
+  case caller => exact hA.caller
+  case callvalue => exact hA.callvalue
+  case calldatasize => exact hA.calldatasize
+  case codesize => exact hA.codesize
+  case gasprice => exact hA.gasprice
+  case coinbase => exact hA.coinbase
+  case timestamp => exact hA.timestamp
+  case number => exact hA.number
+  case difficulty => exact hA.difficulty
+  case gaslimit => exact hA.gaslimit
+  case chainid => exact hA.chainid
+  case basefee => exact hA.basefee
+
+/-- Non-volatile unary symbols. -/
+theorem pure1 (E : Env) (ω ρ : Nat → Word) (tag n : Nat) (s : Sym) (h : s.arity = 1)
+    (hv : s.volatile = false) (l : Term) (a : Word) (hl : l.width = 256) :
+    ∃ x, trNode s [l] n = .ok (x, n) ∧ x.width = 256 ∧
+      ∀ I, Agrees I E ρ → l.eval I = a.toNat →
+        x.eval I = (s.apply E ω ρ tag [a]).toNat := by
+  cases s
+  all_goals first | (simp [Sym.arity] at h; done) | skip
+  all_goals first | (simp [Sym.volatile] at hv; done) | skip
+  all_goals refine ⟨_, rfl, ?_, ?_⟩
+  all_goals first
+    | (simp only [Term.width, boolToBv, one_width, hl]; done)
+    | skip
+  all_goals intro I hA h1
+  all_goals simp only [Term.eval, BTerm.eval, boolToBv, zero_eval, one_eval, hl, h1, evalCmp_eq]
+  case iszero => exact op_iszero a
+  case not => exact op_not a
+  case calldataload =>
+    have := hA.calldataload a.toNat a.isLt
+    rw [BitVec.ofNat_toNat, BitVec.setWidth_eq] at this
+    exact this
+  case blockhash =>
+    have := hA.blockhash a.toNat a.isLt
+    rw [BitVec.ofNat_toNat, BitVec.setWidth_eq] at this
+    exact this
+
+/-- Non-volatile binary symbols. -/
+theorem pure2 (E : Env) (ω ρ : Nat → Word) (tag n : Nat) (s : Sym) (h : s.arity = 2)
+    (hv : s.volatile = false) (l r : Term) (a b : Word) (hl : l.width = 256) (hr : r.width = 256) :
+    ∃ x, trNode s [l, r] n = .ok (x, n) ∧ x.width = 256 ∧
+      ∀ I, Agrees I E ρ → l.eval I = a.toNat → r.eval I = b.toNat →
+        x.eval I = (s.apply E ω ρ tag [a, b]).toNat := by
+  cases s
+  all_goals first | (simp [Sym.arity] at h; done) | skip
+  all_goals first | (simp [Sym.volatile] at hv; done) | skip
+  all_goals refine ⟨_, rfl, ?_, ?_⟩
+  all_goals first
+    | (simp only [Term.width, guardZero, boolToBv, zero_width, one_width, hl, hr]; done)
+    | skip
+  all_goals intro I hA h1 h2
+  all_goals simp only [Term.eval, BTerm.eval, guardZero, boolToBv, zero_eval, one_eval, w256_width,
+    w256_eval, Term.width, hl, hr, h1, h2, evalCmp_eq]
+  case add => exact op_add a b
+  case mul => exact op_mul a b
+  case sub => exact op_sub a b
+  case div => exact op_div a b
+  case sdiv => exact op_sdiv a b
+  case mod => exact op_mod a b
+  case smod => exact op_smod a b
+  case exp => rw [hA.pow00]; exact op_exp a b
+  case lt => exact op_lt a b
+  case gt => exact op_gt a b
+  case slt => exact op_slt a b
+  case sgt => exact op_sgt a b
+  case eq => exact op_eq a b
+  case and => exact op_and a b
+  case or => exact op_or a b
+  case xor => exact op_xor a b
+  case byte => exact op_byte a b
+  case shl => exact op_shl a b
+  case shr => exact op_shr a b
+  case sar => exact op_sar a b
+  case signextend => exact op_signextend a b
+
+/-- Non-volatile ternary symbols. -/
+theorem pure3 (E : Env) (ω ρ : Nat → Word) (tag n : Nat) (s : Sym) (h : s.arity = 3)
+    (hv : s.volatile = false) (l r m : Term) (a b c : Word)
+    (_hl : l.width = 256) (hr : r.width = 256) (hm : m.width = 256) :
+    ∃ x, trNode s [l, r, m] n = .ok (x, n) ∧ x.width = 256 ∧
+      ∀ I, Agrees I E ρ → l.eval I = a.toNat → r.eval I = b.toNat → m.eval I = c.toNat →
+        x.eval I = (s.apply E ω ρ tag [a, b, c]).toNat := by
+  cases s
+  all_goals first | (simp [Sym.arity] at h; done) | skip
+  all_goals first | (simp [Sym.volatile] at hv; done) | skip
+  all_goals refine ⟨_, rfl, ?_, ?_⟩
+  all_goals first
+    | (simp only [Term.width, guardZero, zero_width]; done)
+    | skip
+  all_goals intro I hA h1 h2 h3
+  all_goals simp only [Term.eval, BTerm.eval, guardZero, zero_eval, Term.width, hr, hm, h1, h2, h3,
+    evalCmp_eq]
+  case addmod => exact op_addmod a b c
+  case mulmod => exact op_mulmod a b c
+
+theorem arity_of_not_volatile (s : Sym) (hv : s.volatile = false) :
+    s.arity = 0 ∨ s.arity = 1 ∨ s.arity = 2 ∨ s.arity = 3 := by
+  cases s
+  all_goals first | (simp [Sym.volatile] at hv; done) | (simp [Sym.arity]; done)
+
+theorem trNode_sound (E : Env) (ω ρ : Nat → Word) (s : Sym) (tag : Nat) (xs : List Term)
+    (vs : List Word) (n : Nat) (hlen : xs.length = s.arity) (hlen' : vs.length = s.arity)
+    (hw : ∀ x ∈ xs, x.width = 256) :
+    ∃ x n', trNode s xs n = .ok (x, n') ∧ n ≤ n' ∧ n' ≤ n + 1 ∧ x.width = 256 ∧
+      ∀ I : Interp, Agrees I E ρ → xs.map (·.eval I) = vs.map (·.toNat) →
+        (∀ k, n ≤ k → k < n' → I.fresh k = (ω tag).toNat) →
+        x.eval I = (s.apply E ω ρ tag vs).toNat := by
+  by_cases hv : s.volatile = true
+  · obtain ⟨f, hf⟩ := trNode_volatile s hv xs n hlen
+    refine ⟨_, _, hf, Nat.le_succ _, Nat.le_refl _, rfl, ?_⟩
+    intro I _ _ hfr
+    rw [apply_volatile E ω ρ tag s hv, Term.eval, hfr n (Nat.le_refl _) (Nat.lt_succ_self _)]
+    exact Nat.mod_eq_of_lt (ω tag).isLt
+  · have hv' : s.volatile = false := by simpa using hv
+    rcases arity_of_not_volatile s hv' with h | h | h | h
+    · rw [h] at hlen hlen'
+      obtain rfl := List.length_eq_zero_iff.mp hlen
+      obtain rfl := List.length_eq_zero_iff.mp hlen'
+      obtain ⟨x, htr, hwx, hev⟩ := pure0 E ω ρ tag n s h hv'
+      exact ⟨x, n, htr, Nat.le_refl _, Nat.le_succ _, hwx, fun I hA _ _ => hev I hA⟩
+    · rw [h] at hlen hlen'
+      obtain ⟨l, rfl⟩ := List.length_eq_one_iff.mp hlen
+      obtain ⟨a, rfl⟩ := List.length_eq_one_iff.mp hlen'
+      obtain ⟨x, htr, hwx, hev⟩ := pure1 E ω ρ tag n s h hv' l a (hw l (by simp))
+      refine ⟨x, n, htr, Nat.le_refl _, Nat.le_succ _, hwx, fun I hA hmap _ => hev I hA ?_⟩
+      simpa using hmap
+    · rw [h] at hlen hlen'
+      obtain ⟨l, r, rfl⟩ := len2 hlen
+      obtain ⟨a, b, rfl⟩ := len2 hlen'
+      obtain ⟨x, htr, hwx, hev⟩ :=
+        pure2 E ω ρ tag n s h hv' l r a b (hw l (by simp)) (hw r (by simp))
+      refine ⟨x, n, htr, Nat.le_refl _, Nat.le_succ _, hwx, fun I hA hmap _ => ?_⟩
+      have hmap' : l.eval I = a.toNat ∧ r.eval I = b.toNat := by simpa using hmap
+      exact hev I hA hmap'.1 hmap'.2
+    · rw [h] at hlen hlen'
+      obtain ⟨l, r, m, rfl⟩ := len3 hlen
+      obtain ⟨a, b, c, rfl⟩ := len3 hlen'
+      obtain ⟨x, htr, hwx, hev⟩ :=
+        pure3 E ω ρ tag n s h hv' l r m a b c (hw l (by simp)) (hw r (by simp)) (hw m (by simp))
+      refine ⟨x, n, htr, Nat.le_refl _, Nat.le_succ _, hwx, fun I hA hmap _ => ?_⟩
+      have hmap' : l.eval I = a.toNat ∧ r.eval I = b.toNat ∧ m.eval I = c.toNat := by
+        simpa using hmap
+      exact hev I hA hmap'.1 hmap'.2.1 hmap'.2.2
+
+/-! ### the induction over trees -/
+
+mutual
+theorem toTerm_sound_aux (E : Env) (ω ρ : Nat → Word) : (e : Tree) → e.wf = true → (n : Nat) →
+    ∃ x n', toTerm e n = .ok (x, n') ∧ n ≤ n' ∧ x.width = 256 ∧
+      ∃ vals : Nat → Nat, ∀ I : Interp, Agrees I E ρ →
+        (∀ k, n ≤ k → k < n' → I.fresh k = vals k) →
+        x.eval I = (Tree.eval E ω ρ e).toNat
+  | .node s tag args, hwf, n => by
+    have hwf' : args.length = s.arity ∧ Tree.wfAll args = true := by simpa [Tree.wf] using hwf
+    obtain ⟨xs, n1, htr, hle, hlen, hw, vals, hvals⟩ := toTerms_sound_aux E ω ρ args hwf'.2 n
+    obtain ⟨x, n2, hnode, hle2, hle3, hwx, hev⟩ :=
+      trNode_sound E ω ρ s tag xs (Tree.evalAll E ω ρ args) n1 (by rw [hlen, hwf'.1])
+        (by rw [evalAll_length, hwf'.1]) hw
+    refine ⟨x, n2, ?_, by omega, hwx, fun k => if k < n1 then vals k else (ω tag).toNat, ?_⟩
+    · simp only [toTerm, htr, hnode]
+    · intro I hA hI
+      rw [Tree.eval]
+      apply hev I hA
+      · apply hvals I hA
+        intro k h1 h2
+        have := hI k h1 (by omega)
+        simpa [h2] using this
+      · intro k h1 h2
+        have := hI k (by omega) h2
+        simpa [show ¬ k < n1 by omega] using this
+theorem toTerms_sound_aux (E : Env) (ω ρ : Nat → Word) : (es : Trees) → Tree.wfAll es = true → (n : Nat) →
+    ∃ xs n', toTerms es n = .ok (xs, n') ∧ n ≤ n' ∧ xs.length = es.length ∧
+      (∀ x ∈ xs, x.width = 256) ∧
+      ∃ vals : Nat → Nat, ∀ I : Interp, Agrees I E ρ →
+        (∀ k, n ≤ k → k < n' → I.fresh k = vals k) →
+        xs.map (·.eval I) = (Tree.evalAll E ω ρ es).map (·.toNat)
+  | .nil, _, n => ⟨[], n, rfl, Nat.le_refl _, rfl, by simp, fun _ => 0, fun _ _ _ => rfl⟩
+  | .cons h t, hwf, n => by
+    have hwf' : h.wf = true ∧ Tree.wfAll t = true := by simpa [Tree.wfAll] using hwf
+    obtain ⟨x, n1, htr, hle, hwx, vals1, hv1⟩ := toTerm_sound_aux E ω ρ h hwf'.1 n
+    obtain ⟨xs, n2, htrs, hle2, hlen, hws, vals2, hv2⟩ := toTerms_sound_aux E ω ρ t hwf'.2 n1
+    refine ⟨x :: xs, n2, ?_, by omega, by simp [Trees.length, hlen], ?_,
+      fun k => if k < n1 then vals1 k else vals2 k, ?_⟩
+    · simp only [toTerms, htr, htrs]
+    · intro y hy
+      rcases List.mem_cons.mp hy with rfl | hy
+      · exact hwx
+      · exact hws y hy
+    · intro I hA hI
+      have e1 := hv1 I hA (by
+        intro k h1 h2
+        have := hI k h1 (by omega)
+        simpa [h2] using this)
+      have e2 := hv2 I hA (by
+        intro k h1 h2
+        have := hI k (by omega) h2
+        simpa [show ¬ k < n1 by omega] using this)
+      simp only [List.map, Tree.evalAll, e1, e2]
+end
+
 /-- T-tr.  For a well-formed tree translated with fresh counter `n`: translation
 succeeds, uses the fresh indices `[n, n')`, has width 256, and there is an
 assignment `vals` to those indices (the values the state-dependent reads
@@ -42,7 +304,7 @@ theorem toTerm_sound (E : Env) (ω : Nat → Word) (ρ : Nat → Word) (e : Tree
       ∃ vals : Nat → Nat, ∀ I : Interp, Agrees I E ρ →
         (∀ k, n ≤ k → k < n' → I.fresh k = vals k) →
         x.eval I = (Tree.eval E ω ρ e).toNat := by
-  sorry
+  exact toTerm_sound_aux E ω ρ e hwf n
 
 end Smt
 end EtkVerif
